@@ -13,17 +13,17 @@ Definition vdi_layer (v : vdi) : layer :=
 Lemma vdi_emit_parent_range v idx e io n segs o m :
   vdi_emit v e idx io n = Ok segs -> In (SParent o m) segs ->
   0 <= idx -> 0 <= io -> 0 < n -> io + n <= v_bs v ->
-  (idx * v_bs v + io) * 1 <= o /\ 0 <= m /\ o + m <= (idx * v_bs v + io + n) * 1.
+  (idx * v_bs v + io) * 1 <= o /\ 0 <= m /\ o + m <= (idx * v_bs v + io + n) * 1 /\ o mod 1 = 0 /\ m mod 1 = 0.
 Proof.
   unfold vdi_emit. intros [= <-] Hin Hidx Hio Hn Hfit.
   destruct (e =? UNALLOCATED); [destruct (v_parent v)|destruct (e =? SPARSE)];
     cbn in Hin; destruct Hin as [Hin|[]]; try discriminate.
-  injection Hin as <- <-. lia.
+  injection Hin as <- <-. rewrite !Z.mod_1_r. lia.
 Qed.
 
-Theorem vdi_layer_ok v : 0 < v_bs v -> vdi_wf v -> layer_ok (v_size v) (vdi_layer v).
+Theorem vdi_layer_ok v : 0 < v_bs v -> vdi_wf v -> layer_ok (v_size v) 1 (vdi_layer v).
 Proof.
-  intros Hbs Hwf off n Hoff Hn Hfit. cbn [vdi_layer l_read l_src].
+  intros Hbs Hwf off n Hoff Hn Hfit _ _. cbn [vdi_layer l_read l_src].
   destruct (Z.eq_dec n 0) as [->|Hn0].
   - exists []. unfold vdi_read. rewrite Z.min_l by lia. split; [reflexivity|]. split; [reflexivity|].
     intros o m [].
@@ -31,8 +31,8 @@ Proof.
     exists p. split; [exact Hp|]. rewrite Z.min_l in Hs by lia. split; [exact Hs|].
     intros o m Hin. unfold vdi_read in Hp. rewrite Z.min_l in Hp by lia.
     destruct (walk_parent_range (v_bs v) 1 (vdi_lookup v) (vdi_emit v) Hbs ltac:(lia)
-                (vdi_emit_parent_range v) (vdi_fuel n) off n p o m Hoff Hp Hin) as (H1 & H2 & H3).
-    lia.
+                (vdi_emit_parent_range v) (vdi_fuel n) off n p o m Hoff Hp Hin) as (H1 & H2 & H3 & _ & _).
+    rewrite !Z.mod_1_r. lia.
 Qed.
 
 Lemma vdi_parent_same v : parent_same (vdi_layer v).
@@ -48,7 +48,7 @@ Theorem vdi_chain_correct size (vs : list vdi) :
   forall off n, 0 <= off -> 0 <= n -> off + n <= size ->
   chain_read (map vdi_layer vs) 0 off n = Ok (map (chain_src (map vdi_layer vs) 0) (zseq off n)).
 Proof.
-  intros Hall off n Hoff Hn Hfit. apply (chain_read_correct size); try assumption.
+  intros Hall off n Hoff Hn Hfit. apply (chain_read_correct size 1); try assumption; try apply Z.mod_1_r.
   apply Forall_map. eapply Forall_impl; [|exact Hall].
   intros v (Hbs & Hwf & <-). now apply vdi_layer_ok.
 Qed.
@@ -105,9 +105,9 @@ Proof.
     + eapply IH; [exact Hrun|cbn; lia].
 Qed.
 
-Theorem hds_layer_ok h : 0 < h_cs h -> hds_wf h -> layer_ok (h_size h) (hds_layer h).
+Theorem hds_layer_ok h : 0 < h_cs h -> hds_wf h -> layer_ok (h_size h) 1 (hds_layer h).
 Proof.
-  intros Hcs Hwf off n Hoff Hn Hfit. cbn [hds_layer l_read l_src].
+  intros Hcs Hwf off n Hoff Hn Hfit _ _. cbn [hds_layer l_read l_src].
   destruct (Z.eq_dec n 0) as [->|Hn0].
   - exists []. unfold hds_read. cbn [iter_runs hds_fuel Z.to_nat].
     replace ((off <? h_size h) && (0 <? 0)) with false by (rewrite andb_false_r; reflexivity).
@@ -121,7 +121,7 @@ Proof.
     pose proof (iter_runs_sizes_pos h Hcs _ _ _ _ _ Hit I) as Hnn.
     destruct (segs_of_runs_parent_range h rs off o m Hnn Hin) as (H1 & H2 & H3).
     pose proof (srcs_len_runs h rs off Hnn) as Hlen.
-    rewrite Hs, map_length, zseq_length in Hlen by lia. lia.
+    rewrite Hs, map_length, zseq_length in Hlen by lia. rewrite !Z.mod_1_r. lia.
 Qed.
 
 Theorem hds_chain_correct size (hs : list hds) :
@@ -129,7 +129,75 @@ Theorem hds_chain_correct size (hs : list hds) :
   forall off n, 0 <= off -> 0 <= n -> off + n <= size ->
   chain_read (map hds_layer hs) 0 off n = Ok (map (chain_src (map hds_layer hs) 0) (zseq off n)).
 Proof.
-  intros Hall off n Hoff Hn Hfit. apply (chain_read_correct size); try assumption.
+  intros Hall off n Hoff Hn Hfit. apply (chain_read_correct size 1); try assumption; try apply Z.mod_1_r.
   apply Forall_map. eapply Forall_impl; [|exact Hall].
   intros h (Hcs & Hwf & <-). now apply hds_layer_ok.
+Qed.
+
+(* ---------------- VHDX ---------------- *)
+From DH Require Import Model.Vhdx Proofs.Vhdx Proofs.VhdxPartial Proofs.VhdxLayer.
+
+Lemma vhdx_emit_noparent_no_sparent x es idx io n segs o m :
+  x_has_parent x = false -> vhdx_emit x es idx io n = Ok segs -> ~ In (SParent o m) segs.
+Proof.
+  destruct es as [e s]. intros Hnp Hem Hin. unfold vhdx_emit in Hem. rewrite Hnp in Hem. cbn [negb] in Hem.
+  destruct (be_state e =? PB_NOT_PRESENT).
+  { injection Hem as <-. cbn in Hin. destruct Hin as [Hin|[]]. discriminate. }
+  destruct ((be_state e =? PB_UNDEFINED) || (be_state e =? PB_ZERO) || (be_state e =? PB_UNMAPPED)).
+  { injection Hem as <-. destruct Hin as [Hin|[]]. discriminate. }
+  destruct (be_state e =? PB_FULLY_PRESENT).
+  { injection Hem as <-. destruct Hin as [Hin|[]]. discriminate. }
+  destruct (be_state e =? PB_PARTIALLY_PRESENT); [discriminate|].
+  injection Hem as <-. destruct Hin.
+Qed.
+
+Theorem vhdx_base_layer_ok x :
+  geom_ok x -> states_ok x -> vhdx_wf_nodiff x -> x_size x mod x_ss x = 0 ->
+  layer_ok (x_size x) (x_ss x) (vhdx_layer x).
+Proof.
+  intros Hg Hst Hwf Hsm off n Hoff Hn Hfit Hog Hng.
+  pose proof (covers_nodiff x Hg Hwf) as Hc. destruct Hwf as (Hnp & Hsz & Hcov & Hn7).
+  pose proof Hg as (Hss & Hspb & Hbs & Hcr). cbn [vhdx_layer l_read l_src].
+  pose proof (Z.div_mod off (x_ss x) ltac:(lia)) as Hd1.
+  pose proof (Z.div_mod n (x_ss x) ltac:(lia)) as Hd2.
+  pose proof (Z.div_mod (x_size x) (x_ss x) ltac:(lia)) as Hd3.
+  assert (Hs : 0 <= off / x_ss x) by (apply Z.div_pos; lia).
+  assert (Hc0 : 0 <= n / x_ss x) by (apply Z.div_pos; lia).
+  assert (Hcd : cdiv (x_size x) (x_ss x) = x_size x / x_ss x).
+  { unfold cdiv. symmetry. apply Z.div_unique with (r := x_ss x - 1); [left; lia|]. lia. }
+  assert (Hend : off / x_ss x + n / x_ss x <= cdiv (x_size x) (x_ss x)) by (rewrite Hcd; nia).
+  destruct (walk_ok (spb x) (vhdx_lookup x) (vhdx_emit x) Hspb (vhdx_fuel (n / x_ss x)) (off / x_ss x)
+              (n / x_ss x) _ Hc Hs Hend ltac:(unfold vhdx_fuel; lia)) as [p Hp].
+  exists p. split; [exact Hp|]. split.
+  - rewrite (vhdx_read_sectors_sound x Hg Hst _ _ _ p Hnp Hs Hp). f_equal. f_equal; lia.
+  - intros o m Hin. exfalso.
+    (* no parent reference can occur without a parent *)
+    clear -Hp Hin Hnp Hspb. unfold vhdx_read_sectors in Hp.
+    revert Hp Hin. generalize (vhdx_fuel (n / x_ss x)) as fuel. generalize (off / x_ss x) as a, (n / x_ss x) as b.
+    intros a b fuel; revert p a b. induction fuel as [|fuel IH]; intros p a b Hp Hin; cbn [walk] in Hp.
+    + destruct (b <=? 0); [|discriminate]. injection Hp as <-. destruct Hin.
+    + destruct (b <=? 0); [injection Hp as <-; destruct Hin|].
+      destruct (vhdx_lookup x (a / spb x)) as [es| |]; try discriminate. cbn [bind] in Hp.
+      destruct (vhdx_emit x es (a / spb x) (a mod spb x) _) as [segs| |] eqn:Hem; try discriminate. cbn [bind] in Hp.
+      destruct (walk _ _ _ fuel _ _) as [rest| |] eqn:Hrest; try discriminate. cbn [bind] in Hp.
+      injection Hp as <-. apply in_app_or in Hin. destruct Hin as [Hin|Hin].
+      * exact (vhdx_emit_noparent_no_sparent x es _ _ _ segs o m Hnp Hem Hin).
+      * exact (IH rest _ _ Hrest Hin).
+Qed.
+
+(* a VHDX chain: differencing layers over a non-differencing base, all of one size and sector size *)
+Definition vhdx_member_ok (size ss : Z) (x : vhdx) : Prop :=
+  geom_ok x /\ states_ok x /\ x_size x = size /\ x_ss x = ss /\ size mod ss = 0 /\
+  ((x_has_parent x = true /\ vhdx_wf_diff x) \/ vhdx_wf_nodiff x).
+
+Theorem vhdx_chain_correct size ss (xs : list vhdx) :
+  Forall (vhdx_member_ok size ss) xs ->
+  forall off n, 0 <= off -> 0 <= n -> off + n <= size -> off mod ss = 0 -> n mod ss = 0 ->
+  chain_read (map vhdx_layer xs) 0 off n = Ok (map (chain_src (map vhdx_layer xs) 0) (zseq off n)).
+Proof.
+  intros Hall off n Hoff Hn Hfit Hog Hng. apply (chain_read_correct size ss); try assumption.
+  apply Forall_map. eapply Forall_impl; [|exact Hall].
+  intros x (Hg & Hst & <- & <- & Hsm & [[Hp Hwf]|Hwf]).
+  - now apply vhdx_layer_ok.
+  - now apply vhdx_base_layer_ok.
 Qed.
